@@ -35,6 +35,56 @@ Lemma gset_sig_gwr st b g : gset_sig (gwr st b) g = gwr (gset_sig st g) b. Proof
 Lemma gset_dep_gwr st b d : gset_dep (gwr st b) d = gwr (gset_dep st d) b. Proof. reflexivity. Qed.
 Lemma gset_vsign_gwr st b g : gset_vsign (gwr st b) g = gwr (gset_vsign st g) b. Proof. reflexivity. Qed.
 
+Lemma g_dep_gwr st b : g_dep (gwr st b) = g_dep st. Proof. reflexivity. Qed.
+Lemma g_sig_gwr st b : g_sig (gwr st b) = g_sig st. Proof. reflexivity. Qed.
+Lemma g_vsign_gwr st b : g_vsign (gwr st b) = g_vsign st. Proof. reflexivity. Qed.
+Lemma g_e_gwr st b : g_e (gwr st b) = g_e st. Proof. reflexivity. Qed.
+Lemma g_pos0_gwr st b : g_pos0 (gwr st b) = g_pos0 st. Proof. reflexivity. Qed.
+Lemma g_fds_gwr st b : g_fds (gwr st b) = g_fds st. Proof. reflexivity. Qed.
+#[export] Hint Rewrite g_dep_gwr g_sig_gwr g_vsign_gwr g_e_gwr g_pos0_gwr g_fds_gwr written_gwr gabs_gwr : gst.
+
+Lemma g_e_gset_sig st x : g_e (gset_sig st x) = g_e st. Proof. reflexivity. Qed.
+Lemma g_pos0_gset_sig st x : g_pos0 (gset_sig st x) = g_pos0 st. Proof. reflexivity. Qed.
+Lemma g_rout_gset_sig st x : g_rout (gset_sig st x) = g_rout st. Proof. reflexivity. Qed.
+Lemma g_written_gset_sig st x : g_written (gset_sig st x) = g_written st. Proof. reflexivity. Qed.
+Lemma g_sig_gset_sig st x : g_sig (gset_sig st x) = x. Proof. reflexivity. Qed.
+Lemma g_vsign_gset_sig st x : g_vsign (gset_sig st x) = g_vsign st. Proof. reflexivity. Qed.
+Lemma g_dep_gset_sig st x : g_dep (gset_sig st x) = g_dep st. Proof. reflexivity. Qed.
+Lemma g_fds_gset_sig st x : g_fds (gset_sig st x) = g_fds st. Proof. reflexivity. Qed.
+Lemma gabs_gset_sig st x : gabs (gset_sig st x) = gabs st. Proof. reflexivity. Qed.
+Lemma gout_gset_sig st x : gout (gset_sig st x) = gout st. Proof. reflexivity. Qed.
+Lemma g_e_gset_dep st x : g_e (gset_dep st x) = g_e st. Proof. reflexivity. Qed.
+Lemma g_pos0_gset_dep st x : g_pos0 (gset_dep st x) = g_pos0 st. Proof. reflexivity. Qed.
+Lemma g_rout_gset_dep st x : g_rout (gset_dep st x) = g_rout st. Proof. reflexivity. Qed.
+Lemma g_written_gset_dep st x : g_written (gset_dep st x) = g_written st. Proof. reflexivity. Qed.
+Lemma g_sig_gset_dep st x : g_sig (gset_dep st x) = g_sig st. Proof. reflexivity. Qed.
+Lemma g_vsign_gset_dep st x : g_vsign (gset_dep st x) = g_vsign st. Proof. reflexivity. Qed.
+Lemma g_dep_gset_dep st x : g_dep (gset_dep st x) = x. Proof. reflexivity. Qed.
+Lemma g_fds_gset_dep st x : g_fds (gset_dep st x) = g_fds st. Proof. reflexivity. Qed.
+Lemma gabs_gset_dep st x : gabs (gset_dep st x) = gabs st. Proof. reflexivity. Qed.
+Lemma gout_gset_dep st x : gout (gset_dep st x) = gout st. Proof. reflexivity. Qed.
+Lemma g_e_gset_vsign st x : g_e (gset_vsign st x) = g_e st. Proof. reflexivity. Qed.
+Lemma g_pos0_gset_vsign st x : g_pos0 (gset_vsign st x) = g_pos0 st. Proof. reflexivity. Qed.
+Lemma g_rout_gset_vsign st x : g_rout (gset_vsign st x) = g_rout st. Proof. reflexivity. Qed.
+Lemma g_written_gset_vsign st x : g_written (gset_vsign st x) = g_written st. Proof. reflexivity. Qed.
+Lemma g_sig_gset_vsign st x : g_sig (gset_vsign st x) = g_sig st. Proof. reflexivity. Qed.
+Lemma g_vsign_gset_vsign st x : g_vsign (gset_vsign st x) = x. Proof. reflexivity. Qed.
+Lemma g_dep_gset_vsign st x : g_dep (gset_vsign st x) = g_dep st. Proof. reflexivity. Qed.
+Lemma g_fds_gset_vsign st x : g_fds (gset_vsign st x) = g_fds st. Proof. reflexivity. Qed.
+Lemma gabs_gset_vsign st x : gabs (gset_vsign st x) = gabs st. Proof. reflexivity. Qed.
+Lemma gout_gset_vsign st x : gout (gset_vsign st x) = gout st. Proof. reflexivity. Qed.
+Lemma g_e_gset_fds st x : g_e (gset_fds st x) = g_e st. Proof. reflexivity. Qed.
+Lemma g_pos0_gset_fds st x : g_pos0 (gset_fds st x) = g_pos0 st. Proof. reflexivity. Qed.
+Lemma g_rout_gset_fds st x : g_rout (gset_fds st x) = g_rout st. Proof. reflexivity. Qed.
+Lemma g_written_gset_fds st x : g_written (gset_fds st x) = g_written st. Proof. reflexivity. Qed.
+Lemma g_sig_gset_fds st x : g_sig (gset_fds st x) = g_sig st. Proof. reflexivity. Qed.
+Lemma g_vsign_gset_fds st x : g_vsign (gset_fds st x) = g_vsign st. Proof. reflexivity. Qed.
+Lemma g_dep_gset_fds st x : g_dep (gset_fds st x) = g_dep st. Proof. reflexivity. Qed.
+Lemma g_fds_gset_fds st x : g_fds (gset_fds st x) = x. Proof. reflexivity. Qed.
+Lemma gabs_gset_fds st x : gabs (gset_fds st x) = gabs st. Proof. reflexivity. Qed.
+Lemma gout_gset_fds st x : gout (gset_fds st x) = gout st. Proof. reflexivity. Qed.
+#[export] Hint Rewrite g_e_gset_sig g_pos0_gset_sig g_rout_gset_sig g_written_gset_sig g_sig_gset_sig g_vsign_gset_sig g_dep_gset_sig g_fds_gset_sig gabs_gset_sig gout_gset_sig g_e_gset_dep g_pos0_gset_dep g_rout_gset_dep g_written_gset_dep g_sig_gset_dep g_vsign_gset_dep g_dep_gset_dep g_fds_gset_dep gabs_gset_dep gout_gset_dep g_e_gset_vsign g_pos0_gset_vsign g_rout_gset_vsign g_written_gset_vsign g_sig_gset_vsign g_vsign_gset_vsign g_dep_gset_vsign g_fds_gset_vsign gabs_gset_vsign gout_gset_vsign g_e_gset_fds g_pos0_gset_fds g_rout_gset_fds g_written_gset_fds g_sig_gset_fds g_vsign_gset_fds g_dep_gset_fds g_fds_gset_fds gabs_gset_fds gout_gset_fds : gst.
+
 Lemma len_pad p a : len (pad p a) = padn p a.
 Proof. apply len_zeros. Qed.
 
